@@ -323,6 +323,7 @@ func buildBases(r *lib.RNG, res *lib.Result) *Base {
 
 type Directed struct {
 	Pruning bool // a pruning node: both runs use the pruner's initialiser
+	Far     bool // starts from the second base (height 2W-10; thorough tier only)
 	Name    string
 	Near    bool // starts from the base (height W-10) instead of an empty node
 	Ops     func(height int) []Op
@@ -415,6 +416,15 @@ func directed() []Directed {
 				st(1, evA), rv(2), st(2, evB), {Kind: "restart"}, qu(filtB, W+2, W+8, 1, 0), qu(filtA, W+2, W+8, 1, 0),
 			}
 		}},
+		{Name: "pruned-floor-inside-a-completed-window", Near: true, Far: true, Pruning: true, Ops: func(h int) []Op {
+			pr := func(k int) Op { return Op{Kind: "prune", N: k} }
+			return []Op{
+				st(2*W-3-h, nil), st(1, evA), st(4, nil), st(1, evB), st(4, nil), // A in 2W-3, B in 2W+2, head 2W+6
+				pr(2*W - 3), // window [W, 2W-1] is complete and holds the floor: only window 0 may go
+				qu(filtA, 2*W-3, 2*W+6, 2, 0), {Kind: "restart"}, qu(filtA, 2*W-3, 2*W+6, 2, 0), qu(filtB, 2*W-5, 2*W+6, 2, 0),
+				rv(8), st(3, evB), st(6, nil), {Kind: "restart"}, qu(filtB, 2*W-3, 2*W+7, 1, 0), qu(filtA, 2*W-3, 2*W+7, 1, 0),
+			}
+		}},
 		{Name: "boundary-walk", Near: true, Ops: func(h int) []Op {
 			ops := []Op{st(W-2-h, nil), st(1, evA), st(1, evB)} // W-2 carries A, W-1 carries B: head W-1, rollover done
 			f := Filt{}
@@ -459,7 +469,13 @@ func startWorld(bases *Base, near bool, name string, r *lib.RNG, id uint64, res 
 	return newWorld(name, r, res, pool, v, newState, prunerInit)
 }
 
-func runDirected(bases *Base, d Directed, r *lib.RNG, id uint64, res *lib.Result, pool *DrvPool, v Variant) {
+func runDirected(bases *Base, far *Base, d Directed, r *lib.RNG, id uint64, res *lib.Result, pool *DrvPool, v Variant) {
+	if d.Far {
+		if far == nil {
+			return
+		}
+		bases, pool = far, far.Pool
+	}
 	for _, newState := range []bool{false, true} {
 		prunerInit := newState || d.Pruning // vary the initialiser with the backend
 		w := startWorld(bases, d.Near, d.Name, r, id*2+map[bool]uint64{false: 0, true: 1}[newState], res, pool, v, newState, prunerInit)
@@ -473,7 +489,7 @@ func runDirected(bases *Base, d Directed, r *lib.RNG, id uint64, res *lib.Result
 func probeVariant(bases *Base, r *lib.RNG) Variant {
 	v := Variant{FixCache: true, FixSnap: true, FixPersist: true}
 	for i, d := range directed() {
-		if d.Probe == "" || (d.Near && bases == nil) {
+		if d.Probe == "" || d.Far || (d.Near && bases == nil) {
 			continue
 		}
 		tmp := lib.NewResult("probe")
